@@ -37,7 +37,7 @@ import z3
 from pyvc.contract import VC, Res, FnTask
 from pyvc.emitcheck import EmitTask
 from pyvc import emit, extract, abstract as A
-from pyvc.values import State, Sym, Ref, HObj, HList, HDict, HSet, Closure, KIND_SORT, sym, Unsupported
+from pyvc.values import State, Sym, Ref, HObj, HList, HDict, HSet, Closure, KIND_SORT, sym, Unsupported, fresh_name
 from pyvc.interp import Raised
 from pyvc.smt import check_sat
 from contracts.emit_common import all_visitor_tasks, hole_of
@@ -94,8 +94,17 @@ def native_undeclared(w=None):
         "{% macro mm() %}{% set inner = inner|default(1) %}{{ inner }}{% endmacro %}{{ mm() }}",
         "{% with q9 = q9 %}{{ q9 }}{% endwith %}{% set q9 = 1 %}",
         "{% for row in rows %}{% set total = (total or 0) + row %}{% endfor %}{{ total }}",
+        # names the compiler binds only inside the matching construct, used outside of it
+        "{{ loop.index }}{{ kwargs }}{{ varargs }}{{ caller }}{{ super }}",
+        "{% macro m3() %}{{ loop }}{% endmacro %}{% for i in seq %}{{ m3() }}{% endfor %}",
+        "{% block b2 %}{{ caller }}{{ kwargs }}{% endblock %}",
+        # scopes that still run after a root-level extends
+        "{% extends 'base' %}{% for item in cart %}{% set ns.total = ns.total + item * tax %}{% endfor %}",
+        "{% extends 'base' %}{% with w1 = rate %}{% set ns.x = w1 * fee %}{% endwith %}{% filter upper %}{{ shout }}{% endfilter %}",
+        "{% extends 'base' %}{% set z5 = zz5 %}{% if cond5 %}{% set y5 = yy5 %}{% endif %}{% block body %}{{ inblock5 }}{% endblock %}",
+        "{% if dyn %}{% extends 'base' %}{% endif %}{% for item in cart %}{{ item * tax2 }}{% endfor %}",
     ]
-    env = Environment(loader=DictLoader({"lib": "{% macro f(x) %}{{ x }}{{ libvar }}{% endmacro %}", "inc": "{{ incvar }}"}))
+    env = Environment(loader=DictLoader({"lib": "{% macro f(x) %}{{ x }}{{ libvar }}{% endmacro %}", "inc": "{{ incvar }}", "base": "[{% block body %}{% endblock %}]"}))
     env.context_class = RC
     problems = []
     for src in srcs:
@@ -211,8 +220,15 @@ def run_enter_frame(tracking, n, stack):
     und = st.alloc(HSet(dom=z3.Const("undeclared0", STRSET), size=z3.Int("n_undeclared0"), kk="str"), initial=True)
     glob = st.alloc(HDict(dom=GLOBALS_DOM, val=z3.Const("environment.globals.val", z3.ArraySort(z3.StringSort(), KIND_SORT["obj"])),
                           size=z3.Int("n_globals"), kk="str", vk="obj"), initial=True)
+    n_ext = sym("self.extends_so_far", "int")
+    st.assume(n_ext.t >= 0)
+    # the generator's own state is arbitrary: whatever was compiled before (a known extends, blocks, ...), every `resolve`
+    # load of the frame that is emitted must be recorded (frame flags toplevel / rootlevel / require_output_check /
+    # loop_frame / block_frame / soft_frame are symbolic already)
     g = emit.Gen(st, generator_cls=M.TrackingCodeGenerator if tracking else None, env_fields={"globals": glob},
-                 gen_fields={"undeclared_identifiers": und, "_context_reference_stack": st.alloc(HList(items=list(stack)), initial=True)})
+                 gen_fields={"undeclared_identifiers": und, "_context_reference_stack": st.alloc(HList(items=list(stack)), initial=True),
+                             "has_known_extends": sym("self.has_known_extends", "bool"), "extends_so_far": n_ext,
+                             "created_block_context": sym("self.created_block_context", "bool")})
     loads = {f"l_0_t{i}": (sym(f"action{i}", "str"), sym(f"param{i}", "str")) for i in range(n)}
     st.get(g.symbols).fields["loads"] = st.alloc(HDict(items=loads), initial=True)
     # the rest of the symbol table is arbitrary: a name may be stored in the frame AND resolved from the context
@@ -468,8 +484,72 @@ def tracking_tables(task, tier, seed):
     return rs
 
 
+def _set_algebra_specs(I):
+    """set algebra on symbolic sets (dependency spec of set - / & / | / ^ and the corresponding methods): the result is a
+    NEW set whose membership is defined pointwise, so that a contract can compare it with the original extensionally"""
+    import ast as _ast
+
+    def member(st, v):
+        """k -> Bool for a symbolic HSet ref, or a host set of strings"""
+        if isinstance(v, Ref) and isinstance(st.heap.get(v.id), HSet):
+            h = st.get(v)
+            if h.items is None:
+                return lambda k: z3.Select(h.dom, k)
+            items = list(h.items)
+            return lambda k: z3.Or(*[k == (z3.StringVal(x) if isinstance(x, str) else x.t) for x in items]) if items else z3.BoolVal(False)
+        if isinstance(v, (set, frozenset, tuple, list)) and all(isinstance(x, str) for x in v):
+            items = sorted(v)
+            return lambda k: z3.Or(*[k == z3.StringVal(x) for x in items]) if items else z3.BoolVal(False)
+        return None
+
+    def combine(op):
+        def h(I_, st, args, kwargs, node):
+            a, b = args[0], args[1]
+            ma, mb = member(st, a), member(st, b)
+            if ma is None or mb is None:
+                return None
+            k = z3.Const(fresh_name("k"), z3.StringSort())
+            body = {"sub": z3.And(ma(k), z3.Not(mb(k))), "and": z3.And(ma(k), mb(k)), "or": z3.Or(ma(k), mb(k)), "xor": z3.Xor(ma(k), mb(k))}[op]
+            r = st.alloc(HSet(dom=z3.Lambda([k], body), size=z3.Int(fresh_name("n_set")), kk="str"))
+            return [(st, r)]
+        return h
+
+    for node_op, name in ((_ast.Sub, "sub"), (_ast.BitAnd, "and"), (_ast.BitOr, "or"), (_ast.BitXor, "xor")):
+        I.specs[("binop", node_op)] = combine(name)
+    for meth, name in (("difference", "sub"), ("intersection", "and"), ("union", "or"), ("symmetric_difference", "xor")):
+        I.specs[f"set.{meth}"] = combine(name)
+
+    def inplace(op):
+        def h(I_, st, args, kwargs, node):
+            rs = combine(op)(I_, st, args, kwargs, node)
+            if rs is None:
+                return None
+            s2, r = rs[0]
+            hh, new = s2.get(args[0]), s2.get(r)
+            hh.items, hh.dom, hh.size, hh.kk = None, new.dom, new.size, "str"
+            return [(s2, None)]
+        return h
+
+    for meth, name in (("difference_update", "sub"), ("intersection_update", "and"), ("update", "or"), ("symmetric_difference_update", "xor")):
+        I.specs[f"set.{meth}"] = inplace(name)
+
+    for ctor in (set, frozenset):
+        base = I.specs.get(("fn", id(ctor)))
+
+        def copy_ctor(I_, st, args, kwargs, node, base=base):
+            if args and isinstance(args[0], Ref) and isinstance(st.heap.get(args[0].id), HSet) and st.get(args[0]).items is None:
+                h = st.get(args[0])
+                return [(st, st.alloc(HSet(dom=h.dom, size=h.size, kk=h.kk)))]
+            if base is not None:
+                return base(I_, st, args, kwargs, node)
+            return None
+
+        I.specs[("fn", id(ctor))] = copy_ctor
+
+
 class FindUndeclared(VC):
-    """find_undeclared_variables(ast) runs one TrackingCodeGenerator(ast.environment) over ast and returns its set"""
+    """find_undeclared_variables(ast) runs one TrackingCodeGenerator(ast.environment) over ast and returns exactly the set
+    that generator collected: nothing removed, nothing filtered (result == codegen.undeclared_identifiers, extensionally)"""
     prop = "C32"
     target = "jinja2.meta:find_undeclared_variables"
 
@@ -478,18 +558,30 @@ class FindUndeclared(VC):
 
     def configure(self, I):
         owner = self
+        _set_algebra_specs(I)
 
         def ctor(I_, st, args, kwargs, node):
-            owner.und = sym("the_undeclared_set", "obj")
+            owner.und = st.alloc(HSet(dom=z3.Const("undeclared.before_visit", STRSET), size=z3.Int("n_undeclared_before"), kk="str"))
             r = st.alloc(HObj(M.TrackingCodeGenerator, fields={"undeclared_identifiers": owner.und, "environment": args[0] if args else None}, path="codegen"))
             st.trace.append(A.Event("call", "TrackingCodeGenerator", args, kwargs, r))
             owner.codegen = r
             return [(st, r)]
 
         I.specs[I.spec_key(M.TrackingCodeGenerator)] = ctor
-        I.specs["TrackingCodeGenerator.visit"] = A.abstract_fn("codegen.visit", returns=None, raises=[("any", Exception)])
-        I.specs["NodeVisitor.visit"] = I.specs["TrackingCodeGenerator.visit"]
-        I.specs["CodeGenerator.visit"] = I.specs["TrackingCodeGenerator.visit"]
+        visit = A.abstract_fn("codegen.visit", returns=None, raises=[("any", Exception)])
+
+        def visit_spec(I_, st, args, kwargs, node):
+            # the visit fills the set: afterwards it holds an arbitrary collection of names
+            outs = visit(I_, st, args, kwargs, node)
+            for s, v in outs:
+                if not isinstance(v, Raised):
+                    h = s.get(owner.und)
+                    h.items, h.dom, h.size = None, owner.collected, z3.Int("n_undeclared_collected")
+            return outs
+
+        self.collected = z3.Const("undeclared.collected", STRSET)
+        for k in ("TrackingCodeGenerator.visit", "NodeVisitor.visit", "CodeGenerator.visit"):
+            I.specs[k] = visit_spec
 
     def setup(self, I, st):
         self.env = sym("ast.environment", "obj")
@@ -505,15 +597,23 @@ class FindUndeclared(VC):
             return False
         if out.raised:
             return out.value.tag.startswith("codegen.visit")
-        return out.value is self.und
+        v = out.value
+        if not (isinstance(v, Ref) and isinstance(out.st.heap.get(v.id), HSet)):
+            return False
+        h = out.st.get(v)
+        if h.items is not None:
+            return False
+        k = z3.Const("some_name", z3.StringSort())
+        # every collected name is in the result and nothing else is
+        return z3.ForAll([k], z3.Select(h.dom, k) == z3.Select(self.collected, k))
 
-    posts = [("runs_tracking_generator_once_and_returns_its_set", p_returns)]
+    posts = [("runs_tracking_generator_once_and_returns_exactly_its_set", p_returns)]
 
     def replay(self, w):
         return native_undeclared(w)
 
     def concretize(self, model, pre, out):
-        return {"function": "find_undeclared_variables"}
+        return {"function": "find_undeclared_variables", "model": str(model)[:300]}
 
 
 class _RecMap:
@@ -935,7 +1035,7 @@ def native_standin(which):
     def fn(task, tier, seed):
         t0 = time.time()
         if which == "undeclared":
-            task.bound_text = ("22 templates (plain reads, loops, branches, macros, with, blocks, namespaces, call blocks, filter/set blocks, imports, "
+            task.bound_text = ("33 templates (special names outside their construct, scopes after a root-level extends, plain reads, loops, branches, macros, with, blocks, namespaces, call blocks, filter/set blocks, imports, "
                                "includes, read-before-assign, assignment on one branch only, in blocks / loops / macros) x 4 data assignments rendered with a "
                                "recording Context; oracle: every name looked up at run time is reported by find_undeclared_variables or is an environment global")
             v, d = native_undeclared()
